@@ -28,7 +28,7 @@ Definition neutral (e : ev) : bool :=
   match e with
   | VHPChange _ _ _ | VLimbo _ _ | VTargetDeath _ _ | VSPChange _ _ | VEnergyChange _ _ _
   | VGaugeChange _ _ _ | VBreakExtend _ | VNextAction _ _ _ | VDefaultAction _ | VUltCheck _
-  | VCall _ _ _ | VSample _ _ _ | VDeathSeen _ _ => true
+  | VCall _ _ _ | VSample _ _ _ | VDeathSeen _ _ | VHPSeen _ _ => true
   | _ => false
   end.
 
@@ -81,29 +81,6 @@ Ltac ext_same := (exists []; cbn; rewrite ?app_nil_r; repeat split; apply nb_nil
 Lemma ext_upd_unit s u : ext nb s (upd_unit s u).
 Proof. ext_same. Qed.
 
-Lemma ext_hp_change s u newr dmg src : ext nb s (hp_change s u newr dmg src).
-Proof.
-  unfold hp_change. destruct (PrimFloat.eqb (uhp u) newr); [apply ext_refl, nb_nil|].
-  assert (H1 : forall st, ext nb s (emit (upd_unit s (with_hp u newr st (if dmg then src else ulast u)))
-                                       [VHPChange (uid u) (uhp u) newr])).
-  { intros st. exists [VHPChange (uid u) (uhp u) newr]. cbn. repeat split. apply nb_neutral. reflexivity. }
-  destruct (ust u) eqn:EU; try apply H1.
-  - destruct (PrimFloat.ltb 0 newr).
-    + exists [VHPChange (uid u) (uhp u) newr]. cbn. repeat split. apply nb_neutral. reflexivity.
-    + exists [VHPChange (uid u) (uhp u) newr; VLimbo (uid u) (urev u)]. cbn.
-      rewrite <- app_assoc. repeat split. apply nb_neutral. reflexivity.
-  - destruct (PrimFloat.ltb 0 newr).
-    + exists [VHPChange (uid u) (uhp u) newr]. cbn. repeat split. apply nb_neutral. reflexivity.
-    + exists [VHPChange (uid u) (uhp u) newr; VLimbo (uid u) (urev u)]. cbn.
-      rewrite <- app_assoc. repeat split. apply nb_neutral. reflexivity.
-Qed.
-
-Lemma ext_set_hp s id amt : ext nb s (set_hp s id amt).
-Proof. unfold set_hp. destruct (get_unit (units s) id); [apply ext_hp_change|apply ext_refl, nb_nil]. Qed.
-
-Lemma ext_damage_hp s id src dmg : ext nb s (damage_hp s id src dmg).
-Proof. unfold damage_hp. destruct (get_unit (units s) id); [apply ext_hp_change|apply ext_refl, nb_nil]. Qed.
-
 Lemma ext_set_energy s id amt : ext nb s (set_energy s id amt).
 Proof.
   unfold set_energy. destruct (get_unit (units s) id) as [u|]; [|apply ext_refl, nb_nil].
@@ -131,11 +108,7 @@ Proof. unfold record_hit. destruct (get_unit (units s) d); [ext_same|apply ext_r
 
 Lemma ext_pop_slot s sl : ext nb s (snd (pop_slot s sl)).
 Proof.
-  unfold pop_slot. destruct sl.
-  - destruct (l_battle s); [apply ext_refl, nb_nil|ext_same].
-  - destruct (l_action_end s); [apply ext_refl, nb_nil|ext_same].
-  - destruct (l_hit_end s); [apply ext_refl, nb_nil|ext_same].
-  - destruct (l_death s); [apply ext_refl, nb_nil|ext_same].
+  unfold pop_slot. destruct (nth (slot_ix sl) (lslots s) []); [apply ext_refl, nb_nil|ext_same].
 Qed.
 
 (* turn-model operations used by content keep the turn flags *)
@@ -168,6 +141,41 @@ Section Scripts.
   Definition good_runner (R : runner) : Prop :=
     forall s self p sc s', R s self p sc = Some s' -> ext nb s s'.
 
+
+  Lemma ext_hp_change R (GR : good_runner R) s u newr dmg src s' :
+    hp_change cfg R s u newr dmg src = Some s' -> ext nb s s'.
+  Proof.
+    unfold hp_change. destruct (PrimFloat.eqb (uhp u) newr); [intros H; inversion H; subst; apply ext_refl, nb_nil|].
+    set (s0 := emit (upd_unit s _) [VHPSeen (uid u) dmg]).
+    assert (E0 : ext nb s s0).
+    { exists [VHPSeen (uid u) dmg]. cbn. repeat split. apply nb_neutral. reflexivity. }
+    destruct (pop_slot s0 LHP) as [sc s1] eqn:EP.
+    assert (E1 : ext nb s s1).
+    { eapply ext_trans_nb; [exact E0|]. replace s1 with (snd (pop_slot s0 LHP)) by (rewrite EP; reflexivity). apply ext_pop_slot. }
+    match goal with |- match ?r with _ => _ end = _ -> _ => destruct r as [s2|] eqn:ER; [|discriminate] end.
+    assert (E2 : ext nb s s2).
+    { destruct sc as [i|]; [eapply ext_trans_nb; [exact E1|eapply GR; exact ER]|inversion ER; subst; exact E1]. }
+    set (s3 := emit s2 [VHPChange (uid u) (uhp u) newr]).
+    assert (E3 : ext nb s s3) by (eapply ext_trans_nb; [exact E2|apply ext_emit_neutral; reflexivity]).
+    destruct (get_unit (units s3) (uid u)) as [u'|]; [|intros H; inversion H; subst; exact E3].
+    destruct (ust u'); try (intros H; inversion H; subst; exact E3);
+      (destruct (PrimFloat.ltb 0 newr); intros H; inversion H; subst;
+       [eapply ext_trans_nb; [exact E3|apply ext_upd_unit]
+       |eapply ext_trans_nb; [exact E3|]; eapply ext_trans_nb; [apply ext_upd_unit|apply ext_emit_neutral; reflexivity]]).
+  Qed.
+
+  Lemma ext_set_hp R (GR : good_runner R) s id amt s' : set_hp cfg R s id amt = Some s' -> ext nb s s'.
+  Proof.
+    unfold set_hp. destruct (get_unit (units s) id); [apply ext_hp_change; exact GR|].
+    intros H; inversion H; subst. apply ext_refl, nb_nil.
+  Qed.
+
+  Lemma ext_damage_hp R (GR : good_runner R) s id src dmg s' : damage_hp cfg R s id src dmg = Some s' -> ext nb s s'.
+  Proof.
+    unfold damage_hp. destruct (get_unit (units s) id); [apply ext_hp_change; exact GR|].
+    intros H; inversion H; subst. apply ext_refl, nb_nil.
+  Qed.
+
   Lemma ext_hit s s2 a d t h : ext nb (emit s [VHitStart a d]) s2 -> ext nb s (emit s2 [VHitEnd a d t h]).
   Proof.
     intros (seg & T & P & I & Fl). cbn in T, I, Fl.
@@ -182,11 +190,11 @@ Section Scripts.
     induction ts as [|d ts IH]; intros s self dmg s' H; cbn [do_hits] in H.
     - inversion H; subst. apply ext_refl, nb_nil.
     - set (s2 := emit s [VHitStart self d]) in *.
-      set (s3 := damage_hp s2 d self dmg) in *.
+      destruct (damage_hp cfg R s2 d self dmg) as [s3|] eqn:ED; [|discriminate].
       set (s4 := record_hit s3 d dmg) in *.
       destruct (pop_slot s4 LHitEnd) as [sc s5] eqn:EP.
       assert (E5 : ext nb s2 s5).
-      { eapply ext_trans_nb; [apply ext_damage_hp|]. eapply ext_trans_nb; [apply ext_record_hit|].
+      { eapply ext_trans_nb; [eapply ext_damage_hp; eassumption|]. eapply ext_trans_nb; [apply ext_record_hit|].
         replace s5 with (snd (pop_slot s4 LHitEnd)) by (rewrite EP; reflexivity). apply ext_pop_slot. }
       match type of H with match ?r with _ => _ end = _ => destruct r as [s6|] eqn:ER; [|discriminate] end.
       assert (E6 : ext nb s2 s6).
@@ -206,7 +214,7 @@ Section Scripts.
       assert (E : (match in_attack s with Some _ => s | None => s end) = s) by (destruct (in_attack s); reflexivity).
       rewrite E in H. eapply do_hits_nb; eassumption.
     - discriminate.
-    - destruct (get_unit (units s) _); inversion H; subst; [apply ext_set_hp|apply ext_refl, nb_nil].
+    - destruct (get_unit (units s) _); [eapply ext_set_hp; eassumption|inversion H; subst; apply ext_refl, nb_nil].
     - destruct (budget s <=? 0); inversion H; subst; [apply ext_refl, nb_nil|].
       eapply ext_trans_nb; [apply ext_set_budget|apply ext_enqueue].
     - destruct (budget s <=? 0); inversion H; subst; [apply ext_refl, nb_nil|].
@@ -977,7 +985,7 @@ Definition demo_cfg : config :=
     [[SInsertAbility 1 75 TSelfSel [] 2%nat; SAttack 3 [TPrimary; TPrimary] true 30];
      [SAttack 4 [TId 1] true 10];
      [SAttack 5 [TId 2] true 100; SSample]]
-    [(1, [mkDec 0 100; mkDec 1 101])] [] [] [] [] [] 5 4.
+    [(1, [mkDec 0 100; mkDec 1 101])] [] [] [] [] [] [] 5 4.
 
 Example demo_cfg_runs :
   match start demo_cfg 200 with
